@@ -11,8 +11,9 @@ using namespace sim;
 #define PC __builtin_return_address(0)
 #include <stdio.h>
 #include <stdlib.h>
+#include <string.h>
 static int trace = -1;
-static inline void acc(const void* p, size_t n, bool w, void* pc) {
+static inline void acc(const void* p, size_t n, bool w, void* pc, bool store = false) {
   if (!inTask()) return;
   if (isStackAddr(p)) return;
   static uint64_t traceSeed = 0; static unsigned long lo = 0, hi = ~0UL;
@@ -21,7 +22,14 @@ static inline void acc(const void* p, size_t n, bool w, void* pc) {
   static int ty = -1; if (ty < 0) ty = getenv("SIM_TRACEYIELDS") ? 1 : 0;
   if (ty) traceNote(w ? "yw" : "yr", (int64_t)(uintptr_t)pc, memIsArena(p) ? (int64_t)(uintptr_t)p : 0, (int64_t)n);
   memAccess(p, n, w, pc);
+  if (!store) { yieldMem(); return; }
+  /* A plain store of n bytes follows this call.  If the task is pre-empted here and other tasks change those bytes meanwhile, the bytes are put back before the
+     store proceeds.  For an ordinary store that is invisible (it overwrites all n bytes).  For a store to a bit-field the compiler emits ONE such call and then
+     load - modify - store of the whole storage unit: putting the old bytes back is exactly the lost update the hardware produces when two threads modify
+     neighbouring bit-fields without a common lock. */
+  unsigned char snap[16]; memcpy(snap, p, n); uint64_t s0 = switchCount();
   yieldMem();
+  if (switchCount() != s0 && memcmp(p, snap, n) != 0) { memcpy(const_cast<void*>(p), snap, n); probe("store_resumed_over_bytes_changed_meanwhile"); }
 }
 static inline void atom(const void* p, size_t n, void* pc) {
   if (!inTask()) return;
@@ -40,19 +48,19 @@ void __tsan_read2(void* p) { acc(p, 2, false, PC); }
 void __tsan_read4(void* p) { acc(p, 4, false, PC); }
 void __tsan_read8(void* p) { acc(p, 8, false, PC); }
 void __tsan_read16(void* p) { acc(p, 16, false, PC); }
-void __tsan_write1(void* p) { acc(p, 1, true, PC); }
-void __tsan_write2(void* p) { acc(p, 2, true, PC); }
-void __tsan_write4(void* p) { acc(p, 4, true, PC); }
-void __tsan_write8(void* p) { acc(p, 8, true, PC); }
-void __tsan_write16(void* p) { acc(p, 16, true, PC); }
+void __tsan_write1(void* p) { acc(p, 1, true, PC, true); }
+void __tsan_write2(void* p) { acc(p, 2, true, PC, true); }
+void __tsan_write4(void* p) { acc(p, 4, true, PC, true); }
+void __tsan_write8(void* p) { acc(p, 8, true, PC, true); }
+void __tsan_write16(void* p) { acc(p, 16, true, PC, true); }
 void __tsan_unaligned_read2(void* p) { acc(p, 2, false, PC); }
 void __tsan_unaligned_read4(void* p) { acc(p, 4, false, PC); }
 void __tsan_unaligned_read8(void* p) { acc(p, 8, false, PC); }
 void __tsan_unaligned_read16(void* p) { acc(p, 16, false, PC); }
-void __tsan_unaligned_write2(void* p) { acc(p, 2, true, PC); }
-void __tsan_unaligned_write4(void* p) { acc(p, 4, true, PC); }
-void __tsan_unaligned_write8(void* p) { acc(p, 8, true, PC); }
-void __tsan_unaligned_write16(void* p) { acc(p, 16, true, PC); }
+void __tsan_unaligned_write2(void* p) { acc(p, 2, true, PC, true); }
+void __tsan_unaligned_write4(void* p) { acc(p, 4, true, PC, true); }
+void __tsan_unaligned_write8(void* p) { acc(p, 8, true, PC, true); }
+void __tsan_unaligned_write16(void* p) { acc(p, 16, true, PC, true); }
 void __tsan_vptr_update(void** p, void*) { acc(p, 8, true, PC); }
 void __tsan_vptr_read(void** p) { acc(p, 8, false, PC); }
 void __tsan_read_range(void* p, unsigned long n) { if (n) acc(p, n, false, PC); }
